@@ -273,7 +273,9 @@ fn c07_literals(rng: &mut Rng, thorough: bool) -> Vec<(Vec<u8>, Vec<&'static str
     // zero in every spelling, tiny and huge magnitudes
     for z in ["0", "0.0", "-0", "+0", "0e0", ".0", "0.", "-0.0", "00", "0E5", "0.000", "-.0", "1e-50", "-1e-50", "1e-400", "4.9e-324",
               "0.49", "0.5", "0.51", "-0.49", "-0.5", "-0.51", "1e30", "-1e30", "1e400", "-1e400", "1e19", "1e20", "9.9e18", "1.5", "2.5", "-1.5", "-2.5",
-              "4503599627370497.0", "9007199254740993", "9007199254740993.0", "18446744073709551615.0", "18446744073709551616.0",
+              "0042", "+000255", "0000", "-0128", "065535", "0065536", "018446744073709551615", "000000000000000000000001", "-00000000000000000000", "00127", "000128",
+              "4503599627370497.0", "4503599627370495.0", "4503599627370499.0", "9007199254740991.0", "6755399441055745.0", "-4503599627370497.0", "4503599627370497.4", "4.503599627370497e15",
+              "2251799813685249.0", "2251799813685248.5", "9007199254740993", "9007199254740993.0", "18446744073709551615.0", "18446744073709551616.0",
               "9223372036854775807.0", "9223372036854775808.0", "-9223372036854775808.0", "-9223372036854775809.0",
               "16777217.0", "16777216.5", "65535.49", "65535.5", "32767.5", "-32768.5", "-32768.49", "127.5", "-128.5", "255.5"] {
         out.push((z.as_bytes().to_vec(), all_types.clone()));
